@@ -339,6 +339,14 @@ class Models:
                 return Builtin("list.extend", extend)
             if name == "copy":
                 return Builtin("list.copy", lambda ex_, a, k, l: list(obj))
+            if name == "count":
+                def count(ex_, a, k, l):
+                    tot = 0
+                    for x in obj:
+                        c = ex_.compare_op(__import__("ast").Eq(), x, a[0])
+                        tot = arith("+", tot, ite(c, 1, 0)) if is_z3(c) else tot + (1 if c else 0)
+                    return tot
+                return Builtin("list.count", count)
             if name == "index":
                 def index(ex_, a, k, l):
                     for i, x in enumerate(obj):
